@@ -51,16 +51,18 @@ def main():
             continue
         prop, res, detail = run_one(d)
         exp = meta.get('expected')
-        if record:
+        if record and not meta.get('benign'):
             meta['expected'] = res
             meta['check_output_when_recorded'] = detail
             json.dump(meta, open(os.path.join(d, 'meta.json'), 'w'), indent=1)
         elif exp == 'detected' and res != 'detected':
             rc = 2
+        elif exp == 'no-alarm' and res == 'detected':
+            rc = 2          # a behaviour-preserving refactoring raised an alarm
         rows.append((os.path.basename(d), res, exp, detail))
         print('%-8s %-10s expected=%-10s %s' % (os.path.basename(d), res, exp, detail[:160]))
     if rc:
-        print('SELFTEST-REGRESSION: a seeded mutation recorded as detected is no longer detected')
+        print('SELFTEST-REGRESSION: a seeded mutation recorded as detected is no longer detected, or a benign refactoring raised an alarm')
     return rc
 
 
